@@ -6,6 +6,8 @@ Trace == ndJsonDeserialize(IOEnv.TRACE)
 VARIABLES l, bad, nbad, ntr, roots
 tvars == <<kv, dur, ck, st, hist, last, l, bad, nbad, ntr, roots>>
 MaxBad == 40
+\* deviations are kept per class (operation, failed checks, deviation flags): a flood of one class never hides another
+KeepBad(bd, op, fl, dv) == Cardinality({b \in bd : b[3] = op /\ b[4] = fl /\ b[5] = dv}) < 6 /\ Cardinality(bd) < 40 * MaxBad
 ToSet(s) == {s[i] : i \in DOMAIN s}
 Flag(cond, name) == IF cond THEN {} ELSE {name}
 
@@ -38,7 +40,7 @@ Step(e) ==
          [kv |-> kv, roots |-> roots, f |-> Flag(e.ok /\ OwnersOK(kv, e.total, e.owners) /\ e.rootOK, "finalroot")]
     [] OTHER -> [kv |-> kv, roots |-> roots, f |-> {"unknown-op"}]
 
-TraceInit == /\ kv = EmptyKV /\ dur = EmptyKV /\ ck = EmptyKV /\ st = [clean |-> TRUE, saved |-> FALSE, commits |-> 0]
+TraceInit == /\ kv = EmptyKV /\ dur = EmptyKV /\ ck = EmptyKV /\ st = [clean |-> TRUE, saved |-> FALSE, commits |-> 0, gcs |-> 0]
              /\ hist = <<>> /\ last = "init" /\ l = 1 /\ bad = {} /\ nbad = 0 /\ ntr = 0 /\ roots = {}
 TraceNext ==
   /\ l <= Len(Trace)
@@ -47,7 +49,7 @@ TraceNext ==
      IN  /\ kv' = r.kv /\ roots' = r.roots /\ UNCHANGED <<dur, ck, st, hist, last>>
          /\ l' = l + 1 /\ ntr' = IF e.op = "reset" THEN ntr + 1 ELSE ntr
          /\ nbad' = IF r.f = {} THEN nbad ELSE nbad + 1
-         /\ bad' = IF r.f = {} \/ Cardinality(bad) >= MaxBad THEN bad ELSE bad \cup {<<e.tid, l, e.op, r.f, {}>>}
+         /\ bad' = IF r.f = {} \/ ~KeepBad(bad, e.op, r.f, {}) THEN bad ELSE bad \cup {<<e.tid, l, e.op, r.f, {}>>}
 TraceSpec == TraceInit /\ [][TraceNext]_tvars
 Report == l <= Len(Trace) \/ PrintT(<<"VERIF_RESULT", l - 1, ntr, nbad, bad>>)
 =============================================================================
